@@ -252,6 +252,23 @@ Section Inv.
       change (Some (lv (f y)) = Some (lv y)). rewrite Hf. reflexivity.
     - rewrite list_lookup_alter_ne by exact Hne. reflexivity.
   Qed.
+  Lemma Quiet_upd_at m0 o f m : (forall x, get m o = Some x -> lv (f x) = lv x) -> Quiet m0 m -> Quiet m0 (upd o f m).
+  Proof.
+    intros Hf HQ. eapply Quiet_trans; [exact HQ|]. unfold Quiet, get in *.
+    change (heap (upd o f m)) with (alter f o (heap m)).
+    change (log (upd o f m)) with (log m). change (dead (upd o f m)) with (dead m).
+    split; [apply alter_length|].
+    split; [|split; [exists []; split; [reflexivity|constructor] | auto]].
+    intros o'. destruct (decide (o = o')) as [->|Hne].
+    - rewrite list_lookup_alter. unfold id in *.
+      destruct (heap m !! o') as [y|]; [|reflexivity].
+      change (Some (lv (f y)) = Some (lv y)). rewrite Hf; reflexivity.
+    - rewrite list_lookup_alter_ne by exact Hne. reflexivity.
+  Qed.
+  Lemma Quiet_uhdr_const m0 o h m : h_fin h = h_fin (hdr_of m o) -> Quiet m0 m -> Quiet m0 (uhdr o (fun _ => h) m).
+  Proof.
+    intros Hh. apply Quiet_upd_at. intros x Hx. unfold lv. cbn. rewrite Hh. unfold hdr_of. rewrite Hx. reflexivity.
+  Qed.
   Lemma Quiet_uhdr m0 o f m : (forall h, h_fin (f h) = h_fin h) -> Quiet m0 m -> Quiet m0 (uhdr o f m).
   Proof. intros Hf. apply Quiet_upd. intros x. unfold lv. cbn. rewrite Hf. reflexivity. Qed.
   Lemma Quiet_dead m0 L m : Quiet m0 m -> Quiet m0 (m <| dead ::= app L |>).
@@ -262,12 +279,33 @@ Section Inv.
   Qed.
 End Inv.
 
+Ltac hfin :=
+  intros; unfold inc_tc, reset_tc, set_mark, set_tc, set_dropped, set_side, set_rc; cbn;
+  repeat match goal with |- context [if ?c then _ else _] => destruct c end; reflexivity.
 Create HintDb lq discriminated.
 #[export] Hint Resolve Quiet_refl Quiet_emit_bad Quiet_dead : lq.
 #[export] Hint Extern 1 (Quiet _ (set _ _ ?X)) => (apply (Quiet_same _ X _ eq_refl eq_refl eq_refl)) : lq.
 #[export] Hint Extern 1 (Quiet _ (emit _ _)) => (apply Quiet_emit; [reflexivity|]) : lq.
-#[export] Hint Extern 1 (Quiet _ (uhdr _ _ _)) => (apply Quiet_uhdr; [intros; reflexivity|]) : lq.
+#[export] Hint Extern 2 (Quiet _ (uhdr _ _ _)) => (apply Quiet_uhdr; [hfin|]) : lq.
 #[export] Hint Extern 1 (Quiet _ (upd _ _ _)) => (apply Quiet_upd; [intros; reflexivity|]) : lq.
+Lemma inc_rc_fin h0 h : inc_rc h0 = Some h -> h_fin h = h_fin h0.
+Proof. unfold inc_rc. destruct (_ =? _); [discriminate|]. intros [= <-]. reflexivity. Qed.
+Lemma dec_rc_fin h0 h : dec_rc h0 = Some h -> h_fin h = h_fin h0.
+Proof. unfold dec_rc. destruct (_ =? _); [discriminate|]. intros [= <-]. reflexivity. Qed.
+Lemma inc_tc_fin h0 : h_fin (default h0 (inc_tc h0)) = h_fin h0.
+Proof. unfold inc_tc. destruct (_ =? _); reflexivity. Qed.
+Ltac hconst :=
+  first
+  [ apply inc_rc_fin; assumption
+  | apply dec_rc_fin; assumption
+  | reflexivity
+  | unfold hdr_of;
+    match goal with
+    | H : get ?m ?c = Some ?x |- h_fin _ = h_fin (match get ?m' ?c with _ => _ end) =>
+      change (get m' c) with (get m c); rewrite H
+    end; hfin ].
+#[export] Hint Extern 1 (Quiet _ (uhdr _ (fun _ => ?h) _)) =>
+  (apply Quiet_uhdr_const; [hconst | ]) : lq.
 Ltac lq := eauto 12 with lq.
 
 Section Helpers.
@@ -284,7 +322,7 @@ Section Helpers.
   Lemma q_dec_rc_m m0 o m : Quiet m0 m -> Quiet m0 (dec_rc_m o m).
   Proof.
     unfold dec_rc_m, dec_rc. intros H. destruct (h_rc (hdr_of m o) =? 0); [lq|].
-    apply Quiet_uhdr; [|exact H]. intros h. reflexivity.
+    apply Quiet_uhdr_const; [reflexivity | exact H].
   Qed.
   Hint Resolve q_remove_from_list q_add_to_list q_dec_rc_m : lq.
   Lemma q_uside m0 o f m : Quiet m0 m -> Quiet m0 (uside o f m).
